@@ -172,6 +172,8 @@ def build_jobs(ctx, rng):
             add("convolution_2d", "convolution_2d", {"kernel": K}, H, W, rng.choice(["float32", "float64", "int32"]),
                 "floatinf", (kh // 2, kw // 2), kh=kh, kw=kw)
         add("binary", "binary", {"values": [1, 2, 8]}, H, W, rng.choice(["float64", "int32"]), "floatinf")
+        # an empty (legal) list: nothing is listed, NaN / inf cells must still come out as on NumPy
+        add("binary", "binary", {"values": []}, H, W, "float64", "floatinf")
         # listed values single precision cannot hold, on float32 AND float64 rasters holding their roundings:
         # a backend that casts the list to the raster dtype finds matches the other backend does not
         add("binary", "binary", {"values": [0.1, 1 / 3, 16777217.0, 3]}, H, W, "float32", "float64u")
@@ -231,6 +233,38 @@ def build_jobs(ctx, rng):
             {"func": func, "params": params, "H": H, "W": W, "vals": vals, "dtype": "float64", "radius": list(rad),
              "chunkings": ch, "kh": kh, "kw": kw, "passes": params.get("passes", 1), "xs": None, "ys": None,
              "res": None})
+    # plateau family: a block of the raster that is exactly constant (a lake / a nodata patch / an all-NaN tile) and
+    # ALIGNED with the chunk grid, inside non-constant terrain: per-chunk shortcuts ("flat tile", "empty tile", "tile
+    # without NaN") that look at the chunk's own cells and forget the halo show only there
+    PH, PW = 8, 9
+    for pi, pval in enumerate([5.0, 0.0, "nan"]):
+        base = [[float((3 * r + 2 * c) % 11 + r) for c in range(PW)] for r in range(PH)]
+        for r in range(2, 6):
+            for c in range(3, 6):
+                base[r][c] = pval
+        aligned = [([2, 4, 2], [3, 3, 3]), ([2, 2, 2, 2], [3, 3, 3]), ([2, 4, 2], [9]), ([8], [3, 3, 3]), ([8], [9]),
+                   ([2, 2, 4], [3, 1, 2, 3]),
+                   # a one-cell chunk whose whole 3x3 halo lies inside the block (row 3, column 4)
+                   ([3, 1, 4], [4, 1, 4])]
+        pfuncs = [(f, ({"az": 135, "alt": 30} if f == "hillshade" else {}), (1, 1), 1, 1) for f in FUNCS_STENCIL]
+        pfuncs += [("focal_mean", {"passes": 2, "excludes": ["nan"]}, (1, 1), 1, 1),
+                   ("focal_apply", {"kernel": KERNELS["k3x3"]}, (1, 1), 3, 3),
+                   ("focal_stats", {"kernel": KERNELS["k3x3"]}, (1, 1), 3, 3),
+                   ("hotspots", {"kernel": KERNELS["k3x3"]}, (1, 1), 3, 3),
+                   ("convolution_2d", {"kernel": WEIGHTED[sorted(WEIGHTED)[0]]},
+                    (len(WEIGHTED[sorted(WEIGHTED)[0]]) // 2, len(WEIGHTED[sorted(WEIGHTED)[0]][0]) // 2),
+                    len(WEIGHTED[sorted(WEIGHTED)[0]]), len(WEIGHTED[sorted(WEIGHTED)[0]][0])),
+                   ("equal_interval", {"k": 3}, (1, 1), 1, 1), ("binary", {"values": [5, 0]}, (1, 1), 1, 1),
+                   ("reclassify", {"bins": [1, 5, 9, 50], "new_values": [1, 2, 3, 4]}, (1, 1), 1, 1),
+                   ("ndvi", {}, (1, 1), 1, 1), ("evi", {}, (1, 1), 1, 1), ("sipi", {}, (1, 1), 1, 1)]
+        if quick:
+            pfuncs = pfuncs[pi::3] + [pf for pf in pfuncs[:len(FUNCS_STENCIL)] if pf not in pfuncs[pi::3]][:2]
+        for (func, params, rad, kh, kw) in pfuncs:
+            chs = [{"rows": r, "cols": c, "sched": "synchronous", "nw": 1} for r, c in aligned]
+            jobs.setdefault(func, []).append(
+                {"func": func, "params": params, "H": PH, "W": PW, "vals": base, "dtype": "float64",
+                 "radius": list(rad), "chunkings": chs, "kh": kh, "kw": kw, "passes": params.get("passes", 1),
+                 "xs": None, "ys": None, "res": None})
     return jobs
 
 
